@@ -14,6 +14,7 @@ import (
 // and its in-flight counts must still be on record, and the allocated sum must still cover the conditions on record, its quota included.
 func joinDuringUnknownPass(r *vkit.R) {
 	n := r.N(300, 3000)
+	phaseTag = "j"
 	r.Parallel(n, 8, func(i int, g *vkit.Rand) {
 		h := newHistory(r, g, 4*i) // i%4 != 3: leads all shards; every 5th on the API-backed store
 		if h == nil {
